@@ -87,7 +87,7 @@ def params(rng):
     cls = rng.choice(["HDDDM", "HDDDM", "CDBD"])
     stat = rng.choice(["stdev", "tstat"])
     return {"cls": cls, "db": rng.choice([1, 2, 3]), "stat": stat,
-            "sig": rng.choice([0.5, 1.0, 2.0]) if stat == "stdev" else rng.choice([0.05, 0.2, 0.01]),
+            "sig": rng.choice([0.5, 1.0, 2.0]) if stat == "stdev" else rng.choice([0.05, 0.2, 0.01, 0.6, 0.9]),
             "div": rng.choice(["H", "H", "JS", "TV"]) if cls == "HDDDM" else rng.choice(["JS", "JS", "H", "TV"]),
             "F": 1 if cls == "CDBD" else rng.choice([1, 2, 3]), "subsets": rng.choice([3, 4, 5])}
 
